@@ -419,6 +419,13 @@ func (a *adversary) forgeQC(nd *Node, kind string, view hotstuff.View) (hotstuff
 			}
 		}
 		return hotstuff.NewQuorumCert(sig, b.View(), b.Hash()), true
+	case "zeroview":
+		// an unsigned certificate that claims view 0 (the genesis certificate's shape) for some other block
+		b := a.craftBlock(nd, view)
+		if b == nil {
+			return hotstuff.QuorumCert{}, false
+		}
+		return hotstuff.NewQuorumCert(nil, 0, b.Hash()), true
 	case "nosig":
 		b := a.craftBlock(nd, view)
 		if b == nil {
@@ -497,7 +504,7 @@ func (a *adversary) forgeTC(nd *Node) hotstuff.TimeoutCert {
 	return hotstuff.NewTimeoutCert(a.ownSig(nd, v.ToBytes()), v)
 }
 
-var qcForgeries = []string{"dupsigner", "relabel", "subquorum", "wrongblock", "genesisview", "swapids", "nosig"}
+var qcForgeries = []string{"dupsigner", "relabel", "subquorum", "wrongblock", "genesisview", "swapids", "nosig", "zeroview"}
 
 func (a *adversary) pickForgery(acts []string) string {
 	var have []string
@@ -595,6 +602,23 @@ func (a *adversary) onPropose(nd *Node, p *hotstuff.ProposeMsg) bool {
 			a.fired("aggtwin")
 			return true
 		}
+	}
+	if has(acts, "dupbatch") && len(b.Commands().GetCommands()) > 0 && a.chance(0.6) {
+		// a batch that lists one of its commands twice (and, with several commands of one client, in descending order)
+		cmds := append([]*clientpb.Command(nil), b.Commands().GetCommands()...)
+		if a.chance(0.5) {
+			for i, j := 0, len(cmds)-1; i < j; i, j = i+1, j-1 {
+				cmds[i], cmds[j] = cmds[j], cmds[i]
+			}
+		}
+		cmds = append(cmds, cmds[0])
+		b2 := hotstuff.NewBlock(b.Parent(), b.QuorumCert(), &clientpb.Batch{Commands: cmds}, b.View(), nd.id)
+		w.reg.add(b2, nd)
+		for _, id := range a.others(nd) {
+			a.sendTo(nd, id, "propose", hotstuff.ProposeMsg{ID: nd.id, Block: b2, AggregateQC: p.AggregateQC})
+		}
+		a.fired("dupbatch")
+		return true
 	}
 	if has(acts, "payloadeq") && len(b.Commands().GetCommands()) > 0 && a.chance(0.7) {
 		// the same block in every respect (created at the same instant) except for the payload of its commands:
@@ -1196,6 +1220,26 @@ func (a *adversary) onNewView(nd *Node, to hotstuff.ID, si *hotstuff.SyncInfo) b
 	if acts == nil || !a.chance(nd.byz.Rate) {
 		return false
 	}
+	if has(acts, "spoofproposer") && a.chance(0.6) {
+		// not the leader of its view: a well-formed proposal for that view that names the leader as proposer,
+		// sent over the Byzantine replica's own connections
+		view := nd.states.View()
+		if leader := nd.leader.inner.GetLeader(view); leader != nd.id && leader != 0 {
+			qc := nd.states.HighQC()
+			if qc.View() < view {
+				a.ctr++
+				batch := &clientpb.Batch{Commands: []*clientpb.Command{{ClientID: 7100 + uint32(nd.id), SequenceNumber: a.ctr, Data: []byte("spoof")}}}
+				b := hotstuff.NewBlock(qc.BlockHash(), qc, batch, view, leader)
+				a.w.reg.add(b, nd)
+				for _, id := range a.others(nd) {
+					if id != leader {
+						a.sendTo(nd, id, "propose", hotstuff.ProposeMsg{ID: nd.id, Block: b})
+					}
+				}
+				a.fired("spoofproposer")
+			}
+		}
+	}
 	if has(acts, "roguekey") && a.chance(0.8) {
 		if qc, ok := a.rogueKeyQC(nd); ok {
 			for _, id := range a.others(nd) {
@@ -1375,6 +1419,25 @@ func (a *adversary) inject(in Inject) { a.injectWire(in) }
 // onContribution: a Byzantine tree node, besides its real contribution, sends forged partial aggregates
 // (its own signature bytes under other replicas' names) to its parent and to the root, some of them
 // late enough to arrive after the receiver's aggregation timer has expired.
+// anonContribution: the Byzantine tree node's genuine partial aggregate, but the message names no sender, replica 0
+// or a replica far outside the configuration (the field is the sender's to fill in and no signature covers it).
+func (a *adversary) anonContribution(nd *Node, parent hotstuff.ID, c *kauripb.Contribution) bool {
+	acts := a.acts(nd)
+	if acts == nil || !has(acts, "anoncontrib") || !a.chance(nd.byz.Rate) || !a.chance(0.7) {
+		return false
+	}
+	cp := &kauripb.Contribution{Signature: c.Signature, View: c.View}
+	switch a.intn(3) {
+	case 1:
+		cp.ID = 0xffffffff
+	case 2:
+		cp.ID = uint32(a.w.plan.N + 1 + a.intn(1000))
+	}
+	a.sendTo(nd, parent, "contrib", cp)
+	a.fired("anoncontrib")
+	return true
+}
+
 func (a *adversary) onContribution(nd *Node, view hotstuff.View, sig hotstuff.QuorumSignature) {
 	acts := a.acts(nd)
 	if acts == nil || !has(acts, "forgecontrib") || sig == nil || !a.chance(nd.byz.Rate) {
